@@ -4,7 +4,7 @@
 From Coq Require Import ZArith List String Extraction ExtrOcamlBasic.
 From PV Require Import Lib.Py Extract.Sx.
 From PV Require Gen.excelutil Gen.text.
-From PV Require Import Model.Text.
+From PV Require Import Model.Text Model.TextFormat.
 Import ListNotations.
 Open Scope string_scope.
 
@@ -33,6 +33,7 @@ Definition table : list entry :=
   ; E "concatenate" (callL X_concatenate)
   ; E "concat" (callL X_concat)
   ; E "substitute" (callL X_substitute)
+  ; E "text" (callL X_text)
   ].
 
 Definition dispatch (name : list Z) (args : list sx) : sx :=
